@@ -43,6 +43,13 @@ func CreateTypesTable(i interface{}) TypesTable {
 		}
 
 	case reflect.Map:
+		if v.Kind() == reflect.Ptr {
+			// A pointer to a map: the keys are those of the map.
+			v = v.Elem()
+		}
+		if !v.IsValid() {
+			break
+		}
 		for _, key := range v.MapKeys() {
 			value := v.MapIndex(key)
 			if key.Kind() == reflect.String && value.IsValid() && value.CanInterface() {
